@@ -28,6 +28,9 @@ type Net struct {
 	Refused int
 	// DialDelay > 0: a connection attempt takes this long (virtual time) before it is answered
 	DialDelay time.Duration
+	// WriteErrChoice: a write on a connection the peer has closed either is lost silently
+	// (the kernel accepted it) or fails with a broken-pipe error - chosen exhaustively
+	WriteErrChoice bool
 	// CloseAfterWrites > 0: the peer closes a connection after that many Write calls on it
 	CloseAfterWrites int
 }
@@ -76,6 +79,9 @@ func (e *Ep) Write(b []byte) (int, error) {
 	}
 	e.Writes++
 	if e.PeerClosed {
+		if e.net.WriteErrChoice && vrt.Choose(2, "write after peer close: accepted-and-lost | broken pipe") == 1 {
+			return 0, errors.New("write tcp: broken pipe")
+		}
 		e.Lost = append(e.Lost, b...)
 		return len(b), nil
 	}
